@@ -190,7 +190,34 @@ pub fn run_script(input: &Value) -> Case {
                 "poll" => {
                     let ms = a[1].as_i64().unwrap_or(0);
                     let tmo = if ms < 0 { None } else { Some(Duration::from_millis(ms as u64)) };
-                    let (c, v) = poll_obs(term, tmo);
+                    let (c, v) = if ms < 0 {
+                        // an infinite poll that the script expects to return: a watchdog types a key after two
+                        // seconds so that a lost event shows up as an observation instead of a hung harness
+                        let done = std::sync::atomic::AtomicBool::new(false);
+                        std::thread::scope(|sc| {
+                            sc.spawn(|| {
+                                let t0 = Instant::now();
+                                while t0.elapsed() < Duration::from_secs(2) {
+                                    if done.load(std::sync::atomic::Ordering::SeqCst) {
+                                        return;
+                                    }
+                                    std::thread::sleep(Duration::from_millis(2));
+                                }
+                                peer.ctl(Ctl::Pause(false));
+                                peer.ctl(Ctl::Inject(b"Z".to_vec()));
+                            });
+                            let t0 = Instant::now();
+                            let r = poll_obs(term, None);
+                            done.store(true, std::sync::atomic::Ordering::SeqCst);
+                            if t0.elapsed() >= Duration::from_millis(1900) {
+                                ("OH".to_string(), json!(format!("blocked for 2 s, then {}", r.1)))
+                            } else {
+                                r
+                            }
+                        })
+                    } else {
+                        poll_obs(term, tmo)
+                    };
                     npolls += 1;
                     if c == "OQ" {
                         term_outstanding = false;
@@ -198,7 +225,10 @@ pub fn run_script(input: &Value) -> Case {
                     if term.frames_pending() == 0 {
                         unsent_estimate = 0;
                     }
-                    acts_coq.push(if ms < 0 { "APoll None".to_string() } else { format!("APoll (Some {})", ms) });
+                    // bytes sent so far and chunks left when the poll returned: what the kernel's short writes did to
+                    // the queue (the loop condition depends on it); given to the model as an oracle
+                    let (sent, pend) = (term.stats().send, term.frames_pending());
+                    acts_coq.push(if ms < 0 { format!("APoll None {} {}", sent, pend) } else { format!("APoll (Some {}) {} {}", ms, sent, pend) });
                     obs_coq.push(c);
                     obs_json.push(v);
                 }
@@ -376,7 +406,7 @@ fn gen_script(rng: &mut Rng) -> Value {
     let mut acts: Vec<Value> = vec![];
     let n = 3 + rng.below(14);
     let mut paused = false;
-    let mut certain = 0usize; // events certainly pending (lower bound), to allow infinite polls
+    let mut fresh = false; // a request was made since the last poll: something is certainly outstanding
     let mut term_pending = false;
     let mut out_pending = false;
     for _ in 0..n {
@@ -385,17 +415,17 @@ fn gen_script(rng: &mut Rng) -> Value {
                 // at most 1024 bytes are read from the waker socket at once: bursts up to that size coalesce into one event
                 let top = if rng.chance(1, 5) { 400 } else { 5 };
                 acts.push(json!(["wake", 1 + rng.below(top)]));
-                certain += 1;
+                fresh = true;
             }
             18..=33 => {
                 let len = 1 + rng.below(4) as usize;
                 let s: String = (0..len).map(|_| (b'a' + rng.below(26) as u8) as char).collect();
-                certain += len;
+                fresh = true;
                 acts.push(json!(["in", s]));
             }
             34..=41 => {
                 acts.push(json!(["winch"]));
-                certain += 1;
+                fresh = true;
             }
             42..=45 => {
                 acts.push(json!(["term", rng.below(3)]));
@@ -413,14 +443,11 @@ fn gen_script(rng: &mut Rng) -> Value {
             }
             _ => {
                 // an infinite poll only when it is certain to return: something is pending and output can drain
-                let inf = certain > 0 && !(paused && out_pending) && !term_pending && rng.chance(1, 4);
+                let inf = fresh && !paused && !term_pending && rng.chance(1, 3);
                 let ms: i64 = if inf { -1 } else if rng.chance(3, 5) { 0 } else { 1 + rng.below(8) as i64 };
                 acts.push(json!(["poll", ms]));
-                certain = certain.saturating_sub(1);
-                if term_pending {
-                    term_pending = false;
-                    certain = 0; // after a quit error the bookkeeping of this generator is no longer a lower bound
-                }
+                fresh = false;
+                term_pending = false;
                 if !paused {
                     out_pending = false;
                 }
